@@ -42,6 +42,13 @@ func (e *Engine) verifyFunction(fn *ssa.Function, fc *FuncContract) (c *Ctx) {
 			if k, ok := fc.FnParams[p.Name()]; ok {
 				v.FnK = k
 			}
+			for old, idx := range e.paramAliases(fn) {
+				if idx == k {
+					if kk, ok := fc.FnParams[old]; ok {
+						v.FnK = kk
+					}
+				}
+			}
 		}
 		args = append(args, v)
 	}
@@ -57,6 +64,9 @@ func (e *Engine) verifyFunction(fn *ssa.Function, fc *FuncContract) (c *Ctx) {
 	entryEv := &EvalCtx{c: c, pkg: fn.Pkg.Pkg.Name(), st: st, old: st, vars: map[string]SVal{}, reach: "true"}
 	for k, p := range fn.Params {
 		entryEv.vars[p.Name()] = SVal{T: args[k].T, S: args[k].S, GT: p.Type()}
+	}
+	for old, k := range e.paramAliases(fn) {
+		entryEv.vars[old] = SVal{T: args[k].T, S: args[k].S, GT: fn.Params[k].Type()}
 	}
 	for k, fv := range fn.FreeVars {
 		entryEv.vars["&"+fv.Name()] = SVal{T: binds[k].T, S: "Int", GT: fv.Type()}
